@@ -17,6 +17,8 @@ ASSUMPTIONS = ["only the three normalisations the statement names are applied", 
 
 def cases(tier):
     specs = modelspace.enumerate_specs(1 if tier == "quick" else 2)
+    # the same single-deviation models serialised AFTER a WNTRSimulator run (the dictionary describes the definition)
+    specs += [dict(x, presim=True) for x in modelspace.enumerate_specs(1)]
     ex = sorted(glob.glob(os.path.join(os.environ.get("VERIF_REPO", "/repo"), "examples", "networks", "*.inp")))
     for f in ex:
         big = os.path.getsize(f) > 400000
@@ -102,6 +104,11 @@ def run_case(s):
         wn = wntr.network.WaterNetworkModel(os.path.join(os.environ.get("VERIF_REPO", "/repo"), "examples", "networks", s["inp"]))
     else:
         wn = modelspace.build(s)
+    if s.get("presim"):
+        try:
+            wntr.sim.WNTRSimulator(wn).run_sim()
+        except Exception:  # noqa  (refused valve types, non-convergence: the model is still a model)
+            pass
     d0 = wntr.network.to_dict(wn)
     demandless = set(n["name"] for n in d0["nodes"] if n.get("node_type") == "Junction" and not n.get("demand_timeseries_list"))
     n0 = norm(d0, demandless)
